@@ -160,9 +160,9 @@ func init() {
 	}
 	registry["C15"] = func() Check {
 		return &SeqCheck{Prop: "C15",
-			Ideal: famGraph(3, 2, 5), IdealDeep: famGraph(3, 2, 7), IdealProps: []string{"P_C15"}, IdealInvs: []string{"CodeWaitsIsSpecWaits"}, Probes: probeD10,
+			Ideal: famGraph(3, 2, 5), IdealDeep: famGraph(3, 2, 7), IdealProps: []string{"P_C15"}, IdealInvs: []string{"CodeWaitsIsSpecWaits"}, Probes: append(append([]emitted{}, probeD10...), probeWaits...),
 			Proc:     &ProcCheck{Prop: "C15", Scenarios: "SeqScenarios", IdealInvs: []string{"Serializable"}, Only: []string{"C15_final"}},
-			GenQuick: famGraph(2, 2, 5), GenThorough: famGraph(3, 2, 7), SampleQuick: 150,
+			GenQuick: famGraph(2, 2, 6), GenThorough: famGraph(3, 2, 7), SampleQuick: 200,
 			Sim: with(famGraph(4, 2, 14), func(m *SeqModel) { m.CmdNames = append(m.CmdNames, "claim") }), SimNumQuick: 60, SimNumThorough: 2000}
 	}
 	registry["C16"] = func() Check {
